@@ -20,6 +20,7 @@ fn none(_k: u64) -> Vec<GateAction> {
 
 /// negamax nodes of `go <line>` on a fresh engine given `position`, and its answer
 fn dry_run(pos_line: &str, go_line: &str) -> (u64, SearchOut) {
+    set_current_case(&format!("{} ; {}", pos_line, go_line));
     let mut s = Session::new(false);
     s.line(pos_line);
     let out = run_go(&mut s, go_line, Plan::virtual_rate(0), &none);
@@ -46,11 +47,11 @@ fn c09_scenarios(tier: Tier) -> Vec<Scenario> {
         mk("rnbqkbnr/ppp1p1pp/8/3pPp2/8/8/PPPP1PPP/RNBQKBNR w KQkq f6 0 3", &[], 3),
         mk("n1n5/PPPk4/8/8/8/8/4Kppp/5N1N b - - 0 1", &[], 3),
         mk("8/2p5/3p4/KP5r/1R3p1k/8/4P1P1/8 w - - 0 1", &[], 4),
-        mk("r1bqk2r/pppp1ppp/2n2n2/2b1p3/2B1P3/2N2N2/PPPP1PPP/R1BQK2R w KQkq - 4 5", &[], 3),
         mk("8/8/8/4k3/8/8/3Q4/4K3 b - - 0 1", &[], 4),
     ];
     if tier == Tier::Thorough {
         v.extend(vec![
+            mk("r1bqk2r/pppp1ppp/2n2n2/2b1p3/2B1P3/2N2N2/PPPP1PPP/R1BQK2R w KQkq - 4 5", &[], 3),
             mk("r3k2r/p1ppqpb1/bn2pnp1/3PN3/1p2P3/2N2Q1p/PPPBBPPP/R3K2R w KQkq - 0 1", &[], 3),
             mk("r3k2r/p1ppqpb1/bn2pnp1/3PN3/1p2P3/2N2Q1p/PPPBBPPP/R3K2R b KQkq - 0 1", &[], 3),
             mk("rnbq1k1r/pp1Pbppp/2p5/8/2B5/8/PPP1NnPP/RNBQK2R w KQ - 1 8", &[], 3),
@@ -282,11 +283,19 @@ pub fn run_c09(tier: Tier) -> i32 {
 fn c09_real_interval(rep: &Reporter, tier: Tier) -> u64 {
     let cases: Vec<(&str, usize)> = if tier == Tier::Quick { vec![("r3k2r/p1ppqpb1/bn2pnp1/3PN3/1p2P3/2N2Q1p/PPPBBPPP/R3K2R w KQkq - 0 1", 5)] } else { vec![("r3k2r/p1ppqpb1/bn2pnp1/3PN3/1p2P3/2N2Q1p/PPPBBPPP/R3K2R w KQkq - 0 1", 5), ("rnbqkbnr/pppppppp/8/8/8/8/PPPPPPPP/RNBQKBNR w KQkq - 0 1", 6), ("r4rk1/1pp1qppp/p1np1n2/2b1p1B1/2B1P1b1/P1NP1N2/1PP1QPPP/R4RK1 w - - 0 10", 5)] };
     let mut runs = 0u64;
-    for (fen, depth) in cases {
+    for (fen, depth0) in cases {
         let p = Pos::from_fen(fen).unwrap();
         let pos_line = position_line(&p, &[]);
         let legal: Vec<String> = p.legal().iter().map(|m| m.uci()).collect();
-        let (total, full) = dry_run(&pos_line, &format!("go depth {}", depth));
+        // deepen until the search is long enough to poll at least twice under the original rule
+        let mut depth = depth0;
+        let (mut total, mut full) = dry_run(&pos_line, &format!("go depth {}", depth));
+        while total < 250_000 && depth < 9 {
+            depth += 1;
+            let r = dry_run(&pos_line, &format!("go depth {}", depth));
+            total = r.0;
+            full = r.1;
+        }
         let polls = (total - 1) / 100_000;
         let (_, fresh1) = dry_run(&pos_line, "go depth 1");
         let mut n_j = vec![0u64];
@@ -662,6 +671,46 @@ pub fn run_c07(tier: Tier) -> i32 {
         s.quit();
     });
     fams.push(json!({"family": format!("sessions of {} position/go cycles on one engine", len), "sessions": sessions.len(), "gos": stats.gos.load(Ordering::Relaxed) - before, "secs": t0.elapsed().as_secs_f64()}));
+    // ---- (2b) an earlier search on the same engine must not leak into a later one: after go depth
+    // 3 (and again after a deeper or shallower one), every single legal move as searchmoves
+    let t0 = Instant::now();
+    let before_sm = stats.gos.load(Ordering::Relaxed);
+    let sm_positions: Vec<usize> = if tier == Tier::Quick { vec![0, 1, 7, 8] } else { (0..positions.len()).collect() };
+    par_map_fine(&sm_positions, |&pi| {
+        let (base, moves, tag) = &positions[pi];
+        if tag.starts_with("fullmove_") {
+            return;
+        }
+        let pos_line = position_line(base, moves);
+        let mut root = base.clone();
+        for u in moves {
+            let m = root.find_legal_uci(u).unwrap();
+            root = root.make(&m);
+        }
+        let legal: Vec<String> = root.legal().iter().map(|m| m.uci()).collect();
+        for (first, second_depth, reposition, newgame) in [("go depth 3", 2, true, false), ("go depth 3", 3, false, false), ("go depth 2", 3, true, false), ("go depth 3", 1, true, true)] {
+            let mut s = Session::new(false);
+            s.line(&pos_line);
+            let _ = run_go(&mut s, first, Plan::virtual_rate(1_000), &none);
+            for m in &legal {
+                stats.gos.fetch_add(1, Ordering::Relaxed);
+                if newgame {
+                    s.line("ucinewgame");
+                }
+                if reposition {
+                    s.line(&pos_line);
+                }
+                let spec = GoSpec { line: format!("go depth {} searchmoves {}", second_depth, m), needs_stop: false, searchmoves: vec![m.clone()] };
+                let out = run_go(&mut s, &spec.line, Plan::virtual_rate(1_000), &none);
+                c07_judge(&rep, &root, tag, &pos_line, &spec, "1us/node", &out, 0, json!({"earlier_search_on_this_engine": first, "position_command_repeated": reposition, "ucinewgame_before": newgame}));
+                if out.problem.is_some() {
+                    break;
+                }
+            }
+            s.quit();
+        }
+    });
+    fams.push(json!({"family": "every legal move as searchmoves after an earlier search of the same position on the same engine", "positions": sm_positions.len(), "gos": stats.gos.load(Ordering::Relaxed) - before_sm, "secs": t0.elapsed().as_secs_f64()}));
     // ---- (3) clock schedules: all jump pairs over the clock reads of a run
     let t0 = Instant::now();
     let mut jump_runs = 0u64;
